@@ -62,9 +62,14 @@ EMPair(a,b) == {a.dim, b.dim} = {"Qm","Qc"} \/ b.dim \in a.em \/ a.dim \in b.em
 \*   ta [1e-17,1e-20], tm [1e-17, 0.0] (some exact zeros, some tiny), t32 float32 [1e-8,1e-8] (below float32 eps),
 \*   tl list [1e-20, 0.0], na [nan, inf]: bare sequences that are NOT all zero;  nza [-0.0, 0.0]: IS all zero
 \*   tq 1.6e-19 <unit>, tqa [1.6e-19, 0.0] <unit>: unit-carrying operands with tiny values (never exempt)
-UnytKinds == {"q","a","az","c","tq","tqa"}
+\* size / shape classes (an operand without elements still has a dimension):
+\*   e0 unyt_array of shape (0,), e02 of shape (0,2), e20 of shape (2,0), a1 of shape (1,), q0a a 0-d unyt_array (not a quantity);
+\*   be a bare empty ndarray, bel the empty list (vacuously all zero: the documented exemption applies)
+ShapeUnyt == {"e0","e02","e20","a1","q0a"}
+ShapeKinds == ShapeUnyt \cup {"be","bel"}
+UnytKinds == {"q","a","az","c","tq","tqa"} \cup ShapeUnyt
 QKinds == {"q","tq"}
-AKinds == {"a","az","c","tqa"}
+AKinds == {"a","az","c","tqa"} \cup ShapeUnyt
 \* sequences of quantities: lq [3u, 5/2 u], lqm [3u, 5/2 u'] (two dimensions), tlq / tlqm the same as tuples,
 \* lqm3 [3u, 5/2 u, 2u'] (the foreign dimension comes third)
 ListQ == {"lq","lqm","tlq","tlqm","lqm3"}
@@ -72,15 +77,18 @@ MixedQ == {"lqm","tlqm","lqm3"}
 \* heterogeneous sequences - bare numbers next to quantities: lzq [0.0, 5u], lbq [3.0, 5u], lqb [3u, 5/2]
 HetList == {"lzq","lbq","lqb"}
 BareNumber == {"bs","z","ts","ds","nz","ns","is"}
-BareZero == {"z","za","zl","nz","nza"}
-BareKinds == {"bs","ba","bl","z","za","zl","ts","ds","nz","ns","is","ta","tm","t32","tl","nza","na"}
+BareZero == {"z","za","zl","nz","nza","be","bel"}
+BareKinds == {"bs","ba","bl","z","za","zl","ts","ds","nz","ns","is","ta","tm","t32","tl","nza","na","be","bel"}
 SpecialKinds == {"ts","ds","nz","ns","is","ta","tm","t32","tl","nza","na","tq","tqa"}
-OpaqueKinds == SpecialKinds \ {"nz","nza"}          \* numbers not held by the model: results are not compared
-ZeroKinds == {"z","za","zl","az","nz","nza"}          \* every entry is exactly zero (-0.0 is zero)
+OpaqueKinds == (SpecialKinds \ {"nz","nza"}) \cup ShapeKinds          \* numbers not held by the model: results are not compared
+ZeroKinds == {"z","za","zl","az","nz","nza","be","bel"}          \* every entry is exactly zero (-0.0 is zero)
 AllKinds == UnytKinds \cup ListQ \cup HetList \cup BareKinds
-Shape(k) == IF k \in {"q","bs","z","ts","ds","nz","ns","is","tq"} THEN "s" ELSE IF k = "c" THEN "c" ELSE IF k = "lqm3" THEN "w" ELSE "v"
+\* shapes: s (), v (2,), c (2,1), m (2,2), w (3,), o (1,), e (0,), e02 (0,2), e20 (2,0); x = not broadcastable
+Shape(k) == IF k \in {"q","bs","z","ts","ds","nz","ns","is","tq","q0a"} THEN "s" ELSE IF k = "c" THEN "c" ELSE IF k = "lqm3" THEN "w"
+            ELSE IF k = "a1" THEN "o" ELSE IF k \in {"e0","be","bel"} THEN "e" ELSE IF k \in {"e02","e20"} THEN k ELSE "v"
 BaseVals(pos) == IF pos = 0 THEN <<R(3), <<5,2>>>> ELSE <<R(2), R(5)>>
-Vals(k,pos) == IF k \in ZeroKinds THEN (IF Shape(k) = "s" THEN <<RZero>> ELSE <<RZero,RZero>>)
+Vals(k,pos) == IF k \in ShapeKinds \ {"a1","q0a"} THEN <<>> ELSE IF k \in {"a1","q0a"} THEN <<BaseVals(pos)[1]>>
+               ELSE IF k \in ZeroKinds THEN (IF Shape(k) = "s" THEN <<RZero>> ELSE <<RZero,RZero>>)
                ELSE IF Shape(k) = "s" THEN <<BaseVals(pos)[1]>>
                ELSE IF k = "lqm3" THEN BaseVals(pos) \o <<R(2)>>
                ELSE IF k = "lzq" THEN <<RZero, BaseVals(pos)[2]>> ELSE BaseVals(pos)
@@ -109,8 +117,12 @@ Elems(k,n) ==
     [] OTHER -> {El("1", FALSE, TRUE)}
 
 (* shapes: s scalar, v (2,), c (2,1), m (2,2); flat C order *)
-Bc(a,b) == IF a = "s" THEN b ELSE IF b = "s" THEN a ELSE IF a = b THEN a ELSE "m"
-NEl(sh) == IF sh = "s" THEN 1 ELSE IF sh = "m" THEN 4 ELSE IF sh = "w" THEN 3 ELSE 2
+Bc(a,b) == IF a = "s" THEN b ELSE IF b = "s" THEN a ELSE IF a = b THEN a
+           ELSE IF a = "o" THEN b ELSE IF b = "o" THEN a
+           ELSE IF {a,b} = {"e02","v"} THEN "e02" ELSE IF {a,b} = {"e20","c"} THEN "e20"
+           ELSE IF {a,b} = {"v","c"} THEN "m" ELSE "x"
+Compat(a,b) == Bc(a,b) # "x"
+NEl(sh) == IF sh \in {"s","o"} THEN 1 ELSE IF sh = "m" THEN 4 ELSE IF sh = "w" THEN 3 ELSE IF sh \in {"e","e02","e20"} THEN 0 ELSE 2
 AtB(o, rsh, k) == IF o.sh = "s" THEN o.vals[1]
                   ELSE IF rsh = "m" THEN (IF o.sh = "c" THEN o.vals[((k-1) \div 2)+1] ELSE o.vals[((k-1) % 2)+1])
                   ELSE o.vals[k]
@@ -249,7 +261,7 @@ UfOutcome(op, form, o0, o1) ==
   ELSE IF form = "operator" /\ op \in CompareOps /\ o0.kind \in AKinds /\ o1.kind \in QKinds
   THEN EqWrap(Mirror(op), form, o1, o0)
   ELSE LET r == EqWrap(op, form, o0, o1) IN
-       IF op = "divmod" /\ r.k = "tuple" /\ RetQuantity(o0, o1) /\ Bc(o0.sh, o1.sh) # "s" THEN Raise("RuntimeError")
+       IF op = "divmod" /\ r.k = "tuple" /\ RetQuantity(o0, o1) /\ NEl(Bc(o0.sh, o1.sh)) > 1 THEN Raise("RuntimeError")
        ELSE r
 
 (* ------------------------------------------------------------------------ *)
@@ -261,6 +273,7 @@ GetUnits(o) == CASE o.kind \in {"lqm","tlqm"} -> <<o.unit, OtherUnit(o.unit)>>
                  [] o.kind \in {"lq","tlq"} -> <<o.unit, o.unit>>
                  [] o.kind \in {"lzq","lbq"} -> <<Dimless, o.unit>>
                  [] o.kind = "lqb" -> <<o.unit, Dimless>>
+                 [] o.kind = "bel" -> <<>>                       \* an empty list has no member to ask
                  [] OTHER -> <<o.unit>>
 \* _validate_units_consistency: every unit equals the first
 Consistent(us) == \A i \in DOMAIN us : UEq(us[i], us[1])
@@ -279,8 +292,9 @@ BareResult == {"searchsorted","interp"}
 ArrOutcome(op, o0, o1) ==
   LET u0 == o0.unit u1 == o1.unit IN
   CASE op \in ListMerge \cup PairCons ->
-         IF Consistent(GetUnits(o0) \o GetUnits(o1))
-         THEN (IF op \in BoolResult THEN BoolO ELSE IF op \in BareResult THEN ValO("") ELSE ValO(u0.name))
+         LET us == GetUnits(o0) \o GetUnits(o1) IN
+         IF Consistent(us)
+         THEN (IF op \in BoolResult THEN BoolO ELSE IF op \in BareResult THEN ValO("") ELSE ValO(us[1].name))
          ELSE Raise("UnitInconsistencyError")
     [] op = "einsum" ->   \* a product (np.prod of the operands' units): only the offset-temperature guard of Unit.__mul__ refuses
          IF (~RIsZero(u0.off) /\ u0.dim = "Th") \/ (~RIsZero(u1.off) /\ u1.dim = "Th") THEN Raise("InvalidUnitOperation") ELSE ValO("*")
